@@ -165,6 +165,8 @@ func (m *Module) startCtrlFn(name string, fn func() error) chan error {
 
 	// Start control function in goroutine.
 	go func() {
+		var err error
+
 		// Recover from panic and reset control function signal.
 		defer func() {
 			// recover from panic
@@ -172,17 +174,22 @@ func (m *Module) startCtrlFn(name string, fn func() error) chan error {
 			if panicVal != nil {
 				me := m.NewPanicError(name, "module-control", panicVal)
 				me.Report()
-				ctrlFnError <- fmt.Errorf("panic: %s", panicVal)
+				err = fmt.Errorf("panic: %s", panicVal)
 			}
 
 			// Signal finish.
 			m.ctrlFuncRunning.UnSet()
 			m.checkIfStopComplete()
+
+			// Report the result last: once the caller has it, this goroutine does
+			// not touch the control function flag of the module anymore. Reported
+			// earlier, a following stop of the module could have its flag reset
+			// (and its stop declared complete) by the leftovers of the start.
+			ctrlFnError <- err
 		}()
 
-		// Run control function and report error.
-		err := fn()
-		ctrlFnError <- err
+		// Run control function.
+		err = fn()
 	}()
 
 	return ctrlFnError
